@@ -10,13 +10,16 @@ Definition Qclose (tol : Q) (a b : Q) : bool :=
 
 Inductive c04case :=
 | CFn (p : pen) (n : nat) (impl : list (list (Z * Z)))                (* penalties.<fn>(n, None): exact integers *)
+| CFnErr (p : pen) (n : nat)                                          (* penalties.<fn>(n, None) raised ValueError *)
 | CTerms (ts : list (@term Q)) (tol : Q) (impl : list (list (Z * Z))).   (* TermList.build_penalties *)
 
 Definition check_case (c : c04case) : bool :=
   match c with
   | CFn p n impl =>
       forallb (fun r => forallb (fun e => Z.leb 0 (snd e)) r) impl &&
+      negb (match p with PPeriodic d => match pen_periodic Zrops n d with None => true | Some _ => false end | _ => false end) &&
       meqb Z.eqb (pen_matrix Zrops (KSpline false false) n p) (Zmat_of impl)
+  | CFnErr p n => match p with PPeriodic d => match pen_periodic Zrops n d with None => true | Some _ => false end | _ => false end
   | CTerms ts tol impl =>
       meqb (Qclose tol) (Qmat_of impl) (model_penalty Qrops ts)
   end.
